@@ -1,20 +1,33 @@
 package timeout
 
 import (
+	"sync"
 	"container/heap"
 	"time"
 )
 
 // Overlay file of /verif: test-only access to the package's control block.
 
+var (
+	verifProtoOnce               sync.Once
+	verifProtoCap, verifProtoMax int
+)
+
 // VerifReset installs a fresh control block. Its wake channel is created by the caller's
 // goroutine, so a check that runs inside a testing/synctest bubble gets a channel of that bubble.
 // Pending futures of the previous block are dropped (their workers exit by their own idle rule).
 func VerifReset(maxWorkers int, idle time.Duration) {
+	verifProtoOnce.Do(func() { verifProtoCap, verifProtoMax = cap(cc.wakeCh), cc.maxWorkers })
 	n := new(callControl)
 	n.futures = &futures{}
 	n.maxWorkers = maxWorkers
-	n.wakeCh = make(chan bool, maxWorkers)
+	// the wake channel is dimensioned the way the package's own init() did it: one slot per worker there, or whatever
+	// else it chose (the fresh block must not paper over what init() sets up)
+	wcap := maxWorkers
+	if verifProtoCap != verifProtoMax {
+		wcap = verifProtoCap
+	}
+	n.wakeCh = make(chan bool, wcap)
 	n.idleTimeout = idle
 	heap.Init(n.futures)
 	cc = n
